@@ -446,10 +446,13 @@ impl<'a> OpenResponsesSsePipe<'a> {
                 Err(err) => {
                     let valid = err.valid_up_to();
                     if valid == 0 {
-                        if err.error_len().is_none() {
+                        let Some(invalid_len) = err.error_len() else {
                             break;
-                        }
-                        utf8_buf.remove(0);
+                        };
+                        // Replace the whole invalid sequence with one U+FFFD, exactly as the
+                        // mid-buffer branch below does; otherwise the number of replacement
+                        // characters depends on where the network split the bytes.
+                        utf8_buf.drain(..invalid_len.min(utf8_buf.len()));
                         saw_done = self.push_sse_str("\u{FFFD}").await;
                         if saw_done {
                             utf8_buf.clear();
